@@ -46,9 +46,11 @@ PROGRAMS = {
 }
 PROGRAMS["replace-all-members"] = {"test_something.py": H + "def test_a():\n    assert 5 in snapshot([1, 2])\n\n\ndef test_b():\n    s = snapshot({'a': 1})\n    assert s['b'] == 2\n\n\n"
                                    "def test_c():\n    assert [] == snapshot([1, 2+0])\n    assert (1, 2) == snapshot(())\n"}
+PROGRAMS["two-files-later-category-only-first"] = {"test_a.py": H + "def test_a():\n    assert 1 == snapshot()\n    assert 2 == snapshot(3)\n    assert 4 <= snapshot(9)\n",
+                                                    "test_b.py": H + "def test_b():\n    assert 5 == snapshot()\n"}
 PROGRAMS["defaults-in-pyproject"] = {"test_something.py": PROGRAMS["four-sites"]["test_something.py"],
                                      "pyproject.toml": '[tool.inline-snapshot]\ndefault-flags = ["create", "fix", "trim"]\n'}
-QUICK = ["defaults-in-pyproject", "replace-all-members", "four-sites", "list-mixed", "sub-mixed", "hasrepr", "failing", "two-files", "in-mixed", "strings", "dataclass", "clean-file", "nested-snapshot", "never-compared"]
+QUICK = ["defaults-in-pyproject", "two-files-later-category-only-first", "replace-all-members", "four-sites", "list-mixed", "sub-mixed", "hasrepr", "failing", "two-files", "in-mixed", "strings", "dataclass", "clean-file", "nested-snapshot", "never-compared"]
 
 
 def bounds(tier):
